@@ -33,7 +33,7 @@ LIMITS = {"vi": [0.0, 4.0], "io": [0.0, 0.05], "pl": [0.0, 1e-4], "tp": [-40.0, 
 # limit pairs as users of negative rails write them (smaller magnitude first = descending), reversed pairs, TOML integers
 LIMITS_ODD = [{"vi": [-3.0, -3.6], "vo": [-1.0, -6.0], "tp": [-40.0, 30.0]}, {"vi": [4.0, 0.5], "io": [0.05, 0.0], "tp": [30.0, -40.0]}, {"vi": [0, 4], "pl": [0, 1]}]
 NAMES_ODD = ["limits", "<section>", "source", "x.y", "X Y"]
-WRONG = {"str": "5.0", "bool": True, "list": [1.0, 2.0], "table": {"vi": [5.0], "io": [0.1, 0.2], "x": [[1.0, 2.0]]}, "int-for-bool": 1}
+WRONG = {"int-for-float": 1, "str": "5.0", "bool": True, "list": [1.0, 2.0], "table": {"vi": [5.0], "io": [0.1, 0.2], "x": [[1.0, 2.0]]}, "int-for-bool": 1}
 
 
 def allowed_types(kind, key):
@@ -208,6 +208,13 @@ def gen_cases(tier):
                     yield dict(fam="equiv", kind=kind, P=P, L=LIMITS if full else None)
                     if isinstance(fv, dict):
                         yield dict(fam="equiv", kind=kind, P=P, L=None, permute=True)
+                        # a table that carries surplus keys spelled like OTHER parameters of the kind: they belong to the table, not to the component
+                        P2 = copy.deepcopy(P)
+                        for extra_k, extra_v in (("rt", 7.0), ("iq", 0.004), ("iis", 0.003), ("rs", 0.9)):
+                            if extra_k in opt and extra_k not in P2:
+                                P2[k][extra_k] = extra_v
+                        if P2 != P:
+                            yield dict(fam="equiv", kind=kind, P=P2, L=None)
                         if len(fv["vi"]) == 1:   # toml 0.10.2 itself cannot parse a multi-row nested array inside an inline table
                             yield dict(fam="equiv", kind=kind, P=P, L=LIMITS, inline=True)
         if tier != "quick":  # pairs of alternative forms
@@ -231,6 +238,8 @@ def gen_cases(tier):
                     continue
                 for wt, val in WRONG.items():
                     if wt == "int-for-bool" and bool not in ok:
+                        continue
+                    if wt == "int-for-float" and (int in ok or bool in ok):
                         continue
                     if type(val) in ok:
                         continue
